@@ -232,6 +232,18 @@ CLAIMED['C08'] = (
     'text structure is enumerated, not symbolic (regular-expression scraping of symbolic text is out of reach of the solvers available); the '
     'repository write/read-back leg is C06\'s claim (update_* arguments are compared here); ADF12 header columns follow the parser.',
     'DESIGN.md §4 C08', 'concrete enumeration of file layouts x symbolic numeric content: real parsers executed on z3 proxies, SMT (z3) decides each table-cell equality')
+CLAIMED['C01'] = (
+    'The real Plasma and Beam nodes, Composition / ModelManager, PlasmaMaterial / BeamMaterial, PlasmaModel / BeamModel / BeamAttenuator, the '
+    'five passive models, BeamCXLine, BeamEmissionLine, SingleRayAttenuator and the Notifier are executed from source on a transcribed raysect '
+    'scene graph. Histories build -> [observe] -> change -> [observe] -> change -> observe are explored for every ordered pair (triple in the '
+    'thorough tier) of the 15 plasma mutators and every one (pair in the thorough tier) of the 21 beam / attenuator / plasma mutators, with the '
+    'interleaved observations as symbolic choices and every new value a fresh symbolic object; z3 decides that the final observation '
+    '(material emission function at a symbolic point, beam density, bounding primitive and its dimensions, integrator, ion density, Z_eff) '
+    'equals that of a scene built from scratch in the final configuration. Bounded, not a proof.',
+    'scene-graph callbacks follow the compiled dispatch (C-only methods are not reached by raysect); translations only; line shapes are '
+    'recording stubs and rates uninterpreted functions tagged by provider; exp / sqrt are plain uninterpreted functions on the beam side; '
+    'laser nodes / Thomson scattering and ray tracing through the bounding primitive are outside; one known finding (clamp_sigma) is listed.',
+    'DESIGN.md §4 C01', 'bounded exploration of mutator histories by symbolic execution of the translated real source (history choices and all values symbolic); SMT (z3) decides live-vs-fresh observation equality per path')
 NOT_YET = {}
 props = [json.loads(l) for l in open(os.path.join(HERE, 'properties.jsonl'))]
 checks, na = [], []
